@@ -433,6 +433,61 @@ func (e *env) mayFault(ss []signer, h util.Uint160) bool {
 	return false
 }
 
+// groupVariants returns copies of e whose contract table gives the current and the calling contract other
+// group sets (none, all of ks, and single-key toggles). Used for the oracle "without ReadStates the outcome
+// cannot depend on any manifest".
+func (e *env) groupVariants(ks []*keys.PublicKey) []*env {
+	mk := func(f func(h util.Uint160, old []*keys.PublicKey) []*keys.PublicKey) *env {
+		v := &env{frames: e.frames}
+		seen := map[util.Uint160]bool{}
+		for _, c := range e.contracts {
+			if seen[c.hash] {
+				continue
+			}
+			seen[c.hash] = true
+			if c.hash == e.current() || c.hash == e.calling() {
+				v.contracts = append(v.contracts, contractInfo{hash: c.hash, groups: f(c.hash, c.groups)})
+			} else {
+				v.contracts = append(v.contracts, c)
+			}
+		}
+		for _, h := range []util.Uint160{e.current(), e.calling()} {
+			if !seen[h] {
+				seen[h] = true
+				v.contracts = append(v.contracts, contractInfo{hash: h, groups: f(h, nil)})
+			}
+		}
+		return v
+	}
+	res := []*env{
+		mk(func(util.Uint160, []*keys.PublicKey) []*keys.PublicKey { return nil }),
+		mk(func(util.Uint160, []*keys.PublicKey) []*keys.PublicKey { return ks }),
+	}
+	for _, k := range ks {
+		for _, target := range []util.Uint160{e.current(), e.calling()} {
+			res = append(res, mk(func(h util.Uint160, old []*keys.PublicKey) []*keys.PublicKey {
+				if h != target {
+					return old
+				}
+				var out []*keys.PublicKey
+				had := false
+				for _, g := range old {
+					if g.Equal(k) {
+						had = true
+					} else {
+						out = append(out, g)
+					}
+				}
+				if !had {
+					out = append(out, k)
+				}
+				return out
+			}))
+		}
+	}
+	return res
+}
+
 // ---- generators ------------------------------------------------------------
 
 type universe struct {
@@ -525,6 +580,47 @@ func (u *universe) allDepth2(maxW int) []*cond {
 		}
 		for w := 1; w <= maxW; w++ {
 			rec(nil, w)
+		}
+	}
+	return res
+}
+
+// allDepth3Reduced lists every tree of depth exactly 3 whose operands are trees of depth <= 2 (And/Or of at
+// most 2 operands) over one representative leaf of each kind.
+func (u *universe) allDepth3Reduced() []*cond {
+	ru := &universe{hashes: u.hashes[:1], keys: u.keys[:1]}
+	var lv []*cond
+	for _, l := range ru.allLeaves() {
+		if l.kind == kBool && !l.b {
+			continue
+		}
+		lv = append(lv, l)
+	}
+	t2 := append([]*cond{}, lv...)
+	for _, l := range lv {
+		t2 = append(t2, &cond{kind: kNot, sub: []*cond{l}})
+	}
+	for _, kind := range []int{kAnd, kOr} {
+		for _, a := range lv {
+			t2 = append(t2, &cond{kind: kind, sub: []*cond{a}})
+			for _, b := range lv {
+				t2 = append(t2, &cond{kind: kind, sub: []*cond{a, b}})
+			}
+		}
+	}
+	var res []*cond
+	add := func(c *cond) {
+		if c.depth() == 3 {
+			res = append(res, c)
+		}
+	}
+	for _, a := range t2 {
+		add(&cond{kind: kNot, sub: []*cond{a}})
+		for _, kind := range []int{kAnd, kOr} {
+			add(&cond{kind: kind, sub: []*cond{a}})
+			for _, b := range t2 {
+				add(&cond{kind: kind, sub: []*cond{a, b}})
+			}
 		}
 	}
 	return res
